@@ -102,6 +102,17 @@ def build_family(g):
         Y = rng.integers(0, ky, size=n)
         dep = rng.random(n) < 0.3
         Y[dep] = (X[dep] * 7 + Y[dep] % 5) % ky      # some dependence on the target
+    elif fam == 'idpair':
+        # both vectors id-like: X has ~6/7 n distinct values (all but ky of them singletons, ky frequent ones), Y tens of thousands of
+        # values and a noisy copy of X on the frequent values - (#values of X) x (#values of Y) exceeds 2^31
+        n_ids = (6 * n) // 7
+        X = np.concatenate([np.arange(n_ids), rng.integers(n_ids - ky, n_ids, size=n - n_ids)])
+        X = X[rng.permutation(n)]
+        frequent = X >= n_ids - ky
+        Y = rng.integers(0, 200_000, size=n)
+        Y[frequent] = 200_000 + X[frequent] % ky
+        flip = frequent & (rng.random(n) < 0.15)
+        Y[flip] = 200_000 + rng.integers(0, ky, size=int(flip.sum()))
     elif fam == 'manystrata':
         # ky = repetitions per id (2..4): n // ky ids, each seen ky times, in shuffled row order; the other vector is split evenly
         # inside every id (p == 0: MI exactly 0 although H(X|id) = ln 2 in every stratum) or random
@@ -152,6 +163,13 @@ def manystrata_pair(draw):
     """Tens of thousands of NON-singleton strata (ids seen 2-4 times, n 40 000 - 90 000): a running sum over strata has that many terms."""
     return {'gen': {'fam': 'manystrata', 'n': draw(st.integers(40_000, 90_000)), 'kx': draw(st.integers(2, 3)), 'ky': draw(st.integers(2, 4)),
                     'k': draw(st.integers(0, 2**32 - 1)), 'p': draw(st.sampled_from([0.0, 0.0, 0.5]))}, 'both': True}
+
+
+@st.composite
+def idpair_pair(draw):
+    """n 60 000 - 80 000, both vectors with tens of thousands of distinct values (two id columns of one batch)."""
+    return {'gen': {'fam': 'idpair', 'n': draw(st.integers(60_000, 80_000)), 'kx': 1, 'ky': draw(st.integers(10, 30)),
+                    'k': draw(st.integers(0, 2**32 - 1)), 'p': 0.0}}
 
 
 @st.composite
